@@ -143,6 +143,12 @@ def run_case(ctx, rng, mask, i, channel, argmode, hostile_mode, use_alias):
         # a version (or another all-digit setting) that the spreadsheet stores as a number: read back as the same digits
         h, rows = sheets["settings"]
         sheets["settings"] = (h, [[int(c) if isinstance(c, str) and c.isdigit() and not c.startswith("0") and len(c) < 16 else c for c in r] for r in rows])
+    if channel.startswith(("xlsx", "xls")) and "settings" in sheets and i % 3 == 1:
+        # a column without a header on the settings sheet (column A left blank, a spacer, unheaded remarks): every setting stays under its own header
+        h, rows = sheets["settings"]
+        at = rng.randint(0, len(h) - 1)
+        k = rng.choice([1, 1, 2])
+        sheets["settings"] = (h[:at] + [None] * k + h[at:], [r[:at] + [rng.choice([None, "remark"])] * k + r[at:] for r in rows])
     stem = f"stem_{i}"
     fallback = None
     if channel == "dict":
@@ -268,7 +274,19 @@ def run_case(ctx, rng, mask, i, channel, argmode, hostile_mode, use_alias):
     return o
 
 
+
+def locale_children(ctx):
+    """Settings full of non-ASCII text, converted (and written to a file) in a child process under the C locale."""
+    from .. import localechild
+    for k, (title, fid, ver) in enumerate([("Enqu\u00eate m\u00e9nages \u2013 \u00e9t\u00e9", "enqu\u00eate_1", "v\u00e92"), ("\u8abf\u67fb\u7968", "form_\u8abf", "\u0662\u0660\u0662\u0664"), ("\U0001F600 title", "fid", "1")]):
+        md = ("| survey |\n| | type | name | label |\n| | text | q1 | Q1 |\n| settings |\n| | form_title | form_id | version | instance_name | submission_url | style |\n"
+              f"| | {title} | {fid} | {ver} | concat('\u00e9', ${{q1}}) | https://example.org/\u00fc | th\u00e8me |\n")
+        localechild.judge(ctx, md, f"settings-{k}", "locale")
+
+
 def run_shard(ctx):
+    if ctx.shard == 0:
+        locale_children(ctx)
     pl = plan(ctx.tier, ctx.seed)
     for i in range(pl["n"]):
         if not ctx.mine(i):
@@ -290,6 +308,9 @@ def run_shard(ctx):
 
 def replay(w):
     def chk(ctx, wit):
+        if wit.get("klass") == "locale":
+            locale_children(ctx)
+            return
         i = wit["i"]
         run_case(ctx, ctx.rng("case", i), wit["mask"], i, wit["channel"], wit["argmode"], wit["hostile_mode"], wit["use_alias"])
     return common.replay_with(PROP, w, chk)
